@@ -15,7 +15,8 @@ pub const KF_LOST_ACK: &str = "lost-ack-not-repaired";
 pub const KF_ZERO_WINDOW: &str = "zero-window-stall";
 pub const KF_LOST_HSACK: &str = "lost-handshake-ack";
 pub const KF_HS_BUDGET: &str = "handshake-retransmits-charged-to-data";
-pub const ALL_KF: &[&str] = &[KF_LOST_HSACK, KF_ZERO_WINDOW, KF_LOST_ACK, KF_HS_BUDGET];
+pub const KF_HS_DATA: &str = "data-on-handshake-completing-segment-discarded";
+pub const ALL_KF: &[&str] = &[KF_LOST_HSACK, KF_ZERO_WINDOW, KF_LOST_ACK, KF_HS_DATA, KF_HS_BUDGET];
 
 /// Which of the known defects the tree under test still has, decided once per process by running
 /// the three minimal trigger scenarios (the proposed repairs make all three pass).
@@ -25,11 +26,12 @@ pub struct Defects {
     pub zero_window: bool,
     pub lost_hsack: bool,
     pub hs_budget: bool,
+    pub hs_data: bool,
 }
 
 impl Defects {
     pub fn any(&self) -> bool {
-        self.lost_ack || self.zero_window || self.lost_hsack || self.hs_budget
+        self.lost_ack || self.zero_window || self.lost_hsack || self.hs_budget || self.hs_data
     }
 }
 
@@ -89,6 +91,23 @@ pub fn canary_hs_budget() -> Scenario {
     )
 }
 
+/// (e) the client's first data segment overtakes its handshake ACK: it completes the handshake on
+/// the server, but its payload is thrown away and has to be retransmitted — with `retx_max = 1`
+/// that was the only retransmission, and a slow round trip then aborts the connection.
+pub fn canary_hs_data() -> Scenario {
+    let mut cfg = base_cfg();
+    cfg.retx_threshold = 4;
+    cfg.retx_max = 1;
+    let d = |dir: u8, kind: Kind, nth: u32| Fault { sel: Sel::Kind { dir, kind, nth }, act: Act::Delay(2) };
+    let mut srv = plain_side(0, 64, Close::Shutdown);
+    srv.wait_first = true;
+    base_scenario(
+        [plain_side(1, 64, Close::AfterEof), srv],
+        cfg,
+        Plan { faults: vec![d(C2S, Kind::HsAck, 0), d(C2S, Kind::Data, 1), d(S2C, Kind::Ack, 0)], hole: Hole::None, reorder: vec![] },
+    )
+}
+
 pub fn defects() -> Defects {
     static D: OnceLock<Defects> = OnceLock::new();
     *D.get_or_init(|| Defects {
@@ -96,6 +115,7 @@ pub fn defects() -> Defects {
         zero_window: run_conn(&canary_zero_window(), false).v6.is_some(),
         lost_hsack: run_conn(&canary_lost_hsack(), false).v6.is_some(),
         hs_budget: run_conn(&canary_hs_budget(), false).v6.is_some(),
+        hs_data: run_conn(&canary_hs_data(), false).v6.is_some(),
     })
 }
 
@@ -131,6 +151,12 @@ pub fn trigger_hs_budget(sc: &Scenario) -> bool {
     }
 }
 
+/// Static trigger of (e): with a single retransmission per segment, a handshake ACK that is late
+/// or overtaken costs that retransmission before anything was lost.
+pub fn trigger_hs_data(sc: &Scenario) -> bool {
+    sc.cfg.retx_max == 1 && (sc.plan.max_delay() > 0 || sc.plan.reorders() > 0)
+}
+
 /// Dynamic triggers of (a) and (c): which kinds of packets did the plan actually drop?
 pub fn dropped_kinds(fired: &[Fired]) -> Vec<Kind> {
     let mut v: Vec<Kind> = fired.iter().filter(|f| f.act == Act::Drop).map(|f| f.kind).collect();
@@ -140,10 +166,11 @@ pub fn dropped_kinds(fired: &[Fired]) -> Vec<Kind> {
 }
 
 /// Name of the known defect a (minimised) failing scenario falls under, if any. Deliberately
-/// narrow: (c) only a dropped handshake ACK and nothing else; (a) only drops of pure
-/// acknowledgements (ACK / window update) or of FINs (whose retransmission is likewise never
-/// re-acknowledged) or delays long enough to make a spurious retransmission cross its own ACK;
-/// (b) the static zero-window trigger and no packet lost that is not a window update.
+/// narrow: (c) a dropped handshake ACK and no fault outside the handshake; (b) the static
+/// zero-window trigger holds, a zero window was really advertised, and the run either waits without
+/// end or lost nothing but window information; (a) the plan dropped at least one pure acknowledgement (ACK /
+/// window update / handshake ACK) or FIN (whose retransmission is likewise never re-ACKed);
+/// (e), (d) no drop at all, a small retransmit budget and a delayed packet.
 pub fn classify_known(sc: &Scenario, out: &Outcome, class: &str) -> Option<&'static str> {
     // an abort that nobody observes locally shows up at the peer as a reset or as a wait without end
     let liveness = matches!(class, "Stall" | "Hang" | "ErrorTimedOut" | "ErrorConnectionReset");
@@ -151,14 +178,24 @@ pub fn classify_known(sc: &Scenario, out: &Outcome, class: &str) -> Option<&'sta
         return None;
     }
     let dk = dropped_kinds(&out.fired);
-    if dk == [Kind::HsAck] && out.fired.len() == 1 {
+    let handshake_only = out.fired.iter().all(|f| matches!(f.kind, Kind::Syn | Kind::SynAck | Kind::HsAck));
+    if dk.contains(&Kind::HsAck) && handshake_only {
         return Some(KF_LOST_HSACK);
     }
-    if trigger_zero_window(sc) && (out.zero_window_seen || !sc.topo.cross()) && dk.iter().all(|k| matches!(k, Kind::WinUpd | Kind::Ack)) {
-        return Some(KF_ZERO_WINDOW);
+    if trigger_zero_window(sc) && (out.zero_window_seen || !sc.topo.cross()) {
+        // a wait without end at a closed window is the defect itself, whatever else was lost on the
+        // way there; an abort is attributed to it only if nothing but window information was lost
+        if matches!(class, "Stall" | "Hang") || dk.iter().all(|k| matches!(k, Kind::WinUpd | Kind::Ack)) {
+            return Some(KF_ZERO_WINDOW);
+        }
     }
-    if !dk.is_empty() && dk.iter().all(|k| matches!(k, Kind::Ack | Kind::WinUpd | Kind::HsAck | Kind::Fin)) {
+    // any lost acknowledgement can be the one whose information no later segment repeats; other
+    // drops of the same (bounded) plan only shorten the time to the abort
+    if dk.iter().any(|k| matches!(k, Kind::Ack | Kind::WinUpd | Kind::HsAck | Kind::Fin)) {
         return Some(KF_LOST_ACK);
+    }
+    if dk.is_empty() && trigger_hs_data(sc) && out.fired.iter().any(|f| f.kind == Kind::HsAck) {
+        return Some(KF_HS_DATA);
     }
     if dk.is_empty() && trigger_hs_budget(sc) && out.fired.iter().any(|f| matches!(f.act, Act::Delay(_))) {
         return Some(KF_HS_BUDGET);
@@ -415,6 +452,11 @@ pub fn generate(rng: &mut Rng, spread: &Spread) -> Scenario {
             sc.plan.faults.remove(i);
         }
     }
+    if guarded && avoid.hs_data && trigger_hs_data(&sc) && mode_of(&sc) == Mode::Bounded {
+        // keep clear of (e): a budget of more than one retransmission
+        sc.cfg.retx_max = 2;
+        sc.plan.faults.retain(|f| !matches!(f.act, Act::Delay(_)));
+    }
     if guarded && avoid.zero_window && trigger_zero_window(&sc) {
         // a drop / delay in the plan turned a harmless small cap into a trigger: enlarge the buffer
         sc.cfg.recv_cap = 65536;
@@ -455,6 +497,9 @@ pub fn variants(base: &Scenario, tier: Tier, max_single: usize) -> Vec<Scenario>
             return false;
         }
         if avoid.hs_budget && trigger_hs_budget(s) {
+            return false;
+        }
+        if avoid.hs_data && trigger_hs_data(s) {
             return false;
         }
         !(avoid.zero_window && trigger_zero_window(s))
